@@ -4,7 +4,7 @@
 
 package obase
 
-//@ property C06
+//@ property C06 C07
 
 // lastbufid / lasttag: ghost - the id and tag the last pipeline was started with
 //@ ghost var lastbufid string
